@@ -351,6 +351,7 @@ fn explore(ctx: &mut Ctx, own: u16, style: PageFlipStyle, rich: bool, b: &Bounds
     queue.push_back(0);
     let alpha = alphabet(own, own.wrapping_add(2), rich);
     let st = str_style(style);
+    let mut scratch = VirtualSign::new(Address(own), style);
     while let Some(i) = queue.pop_front() {
         let cur = ex.signs[i].clone();
         let sh = ex.shadows[i];
@@ -369,8 +370,15 @@ fn explore(ctx: &mut Ctx, own: u16, style: PageFlipStyle, rich: bool, b: &Bounds
         }
         for (m, class) in msgs {
             let msg = msg_of_str(&m);
-            let mut next = cur.clone();
+            // every other copy of the state is made with Clone::clone_from onto an object that was in another state
+            let mut next = if ex.transitions % 2 == 1 {
+                scratch.clone_from(&cur);
+                scratch.clone()
+            } else {
+                cur.clone()
+            };
             let r = guarded(|| next.process_message(&msg));
+            scratch.clone_from(&next);
             ex.transitions += 1;
             let line = format!("VSL {} {} {}{}{}", own, st, hist.join(" "), if hist.is_empty() { "" } else { " " }, m);
             if emit {
@@ -780,6 +788,12 @@ fn gen_c14(ctx: &mut Ctx) {
                 _ => format!("DC.{}", rng.below(4)),
             } };
             let msg = msg_of_str(&m);
+            if hist.len() % 7 == 3 {
+                // carry on with a copy made by Clone::clone_from onto a fresh bus of the same signs
+                let mut copy = VirtualSignBus::new((0..k).map(|i| VirtualSign::new(Address(addrs[i]), styles[i])).collect::<Vec<_>>());
+                copy.clone_from(&bus);
+                bus = copy;
+            }
             let before: Vec<VirtualSign<'static>> = (0..k).map(|i| bus.sign(i).clone()).collect();
             for i in 0..k {
                 shadows[i] = shadow_after(shadows[i], Address(addrs[i]), before[i].state(), &msg);
